@@ -45,7 +45,7 @@ CTransactionRef build_probe_tx(ChainSim& sim, const Probe& p, CAmount fee_hint, 
 } // namespace
 
 VERIF_TARGET(c05_timelocks, nullptr, 64, 900,
-             "a regtest node (104-block base; CSV/BIP113 active from height 1, 108, 110 or 113) extended by 2-10 blocks with random timestamps in (MTP, MTP+3000] and "
+             "a regtest node (104-block base; CSV/BIP113 active from height 1, 108, 110 or 113) extended by 6-18 blocks with random timestamps in (MTP, MTP+3000] and "
              "funding transactions; then up to 12 probes: a block on the tip holding one transaction with nLockTime in {0, h-1, h, h+1, 499999999, 500000000, "
              "MTP-1, MTP, MTP+1, blocktime-1..+1, max}, per-input nSequence in {FINAL, FINAL-1, disable flag, height-type k-1/k/k+1 around the coin's depth, "
              "time-type at the 512 s step around MTP(tip)-MTP(block before the coin), junk in undefined bits, random}, version 0/1/2/3/max, spending funded "
@@ -110,7 +110,7 @@ VERIF_TARGET(c05_timelocks, nullptr, 64, 900,
 
     // ---------------- phase A: random-time chain with funding
     {
-        unsigned k = s.range<unsigned>(2, 10);
+        unsigned k = s.range<unsigned>(6, 18); // >= 6 so that the median of the last 11 timestamps leaves the 1-second-spaced base chain
         uint256 tip = base.back();
         for (unsigned i = 0; i < k; ++i) tip = grow(tip, i < 3 || s.chance(64), i + 1);
         VCHECK(sim.TipHash() == tip, "c05.valid-block-rejected", "setup chain is not the active chain");
@@ -183,7 +183,7 @@ VERIF_TARGET(c05_timelocks, nullptr, 64, 900,
                 pool->erase(pool->begin() + j);
                 const int hc = coin.second.height;
                 uint32_t seq;
-                unsigned sm = s.range<unsigned>(0, 6);
+                unsigned sm = s.range<unsigned>(0, 7);
                 const uint32_t junk = s.chance(64) ? (s.ConsumeIntegral<uint32_t>() & 0x7fbf0000u) : 0; // bits without consensus meaning
                 if (sm == 0) seq = REF_SEQ_FINAL;
                 else if (sm == 1) seq = REF_SEQ_FINAL - 1;
@@ -191,7 +191,7 @@ VERIF_TARGET(c05_timelocks, nullptr, 64, 900,
                 else if (sm == 3 || sm == 4) { // height type: satisfied iff hc + v <= H
                     int64_t v = int64_t(H) - hc + s.pick<int>({0, -1, 1, 0});
                     seq = uint32_t(std::clamp<int64_t>(v, 0, 65535)) | junk;
-                } else if (sm == 5) { // time type: satisfied iff MTP(block before the coin's block) + 512 v <= MTP(tip)
+                } else if (sm == 5 || sm == 6) { // time type: satisfied iff MTP(block before the coin's block) + 512 v <= MTP(tip)
                     int64_t start = sim.ledger.MedianTimePast(sim.ledger.AncestorAt(tip, std::max(hc - 1, 0)));
                     int64_t q = (M - start) / 512;
                     int64_t v = q + s.pick<int>({0, 1, -1, 0});
